@@ -262,7 +262,7 @@ fn stale_resolutions(st: &HostState) -> Vec<(String, String)> {
         .collect()
 }
 
-fn synced(st: &HostState, touched: &BTreeSet<String>) -> Result<(), String> {
+fn synced(st: &HostState, touched: &BTreeSet<String>, entry: &str) -> Result<(), String> {
     if !st.read_fault.is_empty() || !st.resolve_fault.is_empty() {
         return Err("fault active".into());
     }
@@ -270,6 +270,14 @@ fn synced(st: &HostState, touched: &BTreeSet<String>) -> Result<(), String> {
         return Err(format!("{} was parsed under a resolve fault", f));
     }
     for (f, view) in &st.session_view {
+        // A module the session holds of a file that has been DELETED since is not in the way, unless it is the entry
+        // point: the only roads to it are import resolutions, the session re-validates the recorded ones before every
+        // build (KF-C14-1 repaired) and asks the host for the others (`import("./x")` types) during the build, and the
+        // host no longer finds the file. (Seeded change c14o-1 answered such a question from the cache; with the old
+        // rule - a deleted file the session has seen keeps the state unsynced for good - nothing was compared.)
+        if view.is_some() && !st.fs.contains_key(f) && f != entry {
+            continue;
+        }
         if view.as_ref() != st.fs.get(f) {
             return Err(format!("session's knowledge of {} is out of date", f));
         }
@@ -428,7 +436,10 @@ fn execute_history(run: &Run, opts: &ExecOpts) -> Outcome {
                 if *diag_first {
                     cx.out.stats.probe("checkpoint_diagnostics_entry_point_first");
                 }
-                let sync = synced(&shared.borrow(), &cx.touched);
+                let sync = synced(&shared.borrow(), &cx.touched, &entry);
+                if sync.is_ok() && shared.borrow().session_view.iter().any(|(f, v)| v.is_some() && !shared.borrow().fs.contains_key(f)) {
+                    cx.out.stats.probe("checkpoint_compared_while_the_session_holds_a_module_of_a_deleted_file");
+                }
                 if opts.trace {
                     cx.trace.push(format!("  session -> {} ; synced: {}", ts.shape(), match &sync { Ok(()) => "yes".to_string(), Err(e) => format!("no ({})", e) }));
                 }
